@@ -45,6 +45,10 @@ type scenario struct {
 	// comes: the core's 90 s response timeout) | burst (all replies of the transition and the failure arrive back to back)
 	// | drop, dropabrupt (R… kinds only: environment idle, the master ends the subscription cleanly / resets the connection)
 	instant string
+	// optional sixth field: bystander groups — roster tasks on the same agents that belong to no environment (kept by
+	// an environment destroyed with keepTasks) or to a second live environment, created before / after the main
+	// environment (= before / after its tasks in the roster); see bystanders.go
+	groups []group
 }
 
 var kinds = []string{"FAILED", "LOST", "KILLED", "TERROR", "FINISHED", "EXEC", "EXEC0", "AGENT", "AGENT0", "INTERNAL"}
@@ -70,10 +74,18 @@ func parseScenario(in string) (*scenario, error) {
 	if err != nil {
 		return nil, err
 	}
-	if !n.IsList || n.Len() != 5 {
-		return nil, fmt.Errorf("scenario: want 5 fields")
+	if !n.IsList || (n.Len() != 5 && n.Len() != 6) {
+		return nil, fmt.Errorf("scenario: want 5 or 6 fields")
 	}
 	s := &scenario{live: n.At(0).Str(), victim: n.At(2).Int(), kind: n.At(3).Str(), instant: n.At(4).Str()}
+	if n.Len() == 6 {
+		if s.groups, err = parseGroups(n.At(5)); err != nil {
+			return nil, err
+		}
+		if len(s.groups) == 0 {
+			return nil, fmt.Errorf("scenario: an empty group list is written as no sixth field")
+		}
+	}
 	for _, t := range n.At(1).List {
 		if !t.IsList || t.Len() != 2 {
 			return nil, fmt.Errorf("scenario: bad task")
@@ -119,7 +131,11 @@ func (s *scenario) String() string {
 	for _, t := range s.tasks {
 		ts.Add(sx.L(sx.B(t.crit), sx.I(t.host)))
 	}
-	return sx.L(sx.A(s.live), ts, sx.I(s.victim), sx.A(s.kind), sx.A(s.instant)).String()
+	l := sx.L(sx.A(s.live), ts, sx.I(s.victim), sx.A(s.kind), sx.A(s.instant))
+	if len(s.groups) > 0 {
+		l.Add(groupsSx(s.groups))
+	}
+	return l.String()
 }
 
 // ---- the world -----------------------------------------------------------------------------
@@ -180,6 +196,7 @@ type observation struct {
 	trans    string
 	tErrorMs int64 // -1: ERROR not reached within the window
 	log      string
+	by       []groupObs // bystander groups (only with a sixth input field)
 }
 
 func (o *observation) sx() string {
@@ -213,6 +230,9 @@ func (o *observation) sx() string {
 		sx.L(sx.A("trans"), sx.A(o.trans)),
 	} {
 		l.Add(f)
+	}
+	if len(o.by) > 0 {
+		l.Add(sx.L(sx.A("by"), groupObsSx(o.by)))
 	}
 	return l.String()
 }
@@ -364,6 +384,11 @@ func runScenario(s *scenario, verbose bool) (*observation, error) {
 	for _, t := range s.tasks {
 		hosts[t.host] = true
 	}
+	for _, g := range s.groups {
+		for _, t := range g.tasks {
+			hosts[t.host] = true
+		}
+	}
 	for h := 1; h <= 2; h++ {
 		if hosts[h] {
 			w.AddAgent(sim.AgentSpec{Host: fmt.Sprintf("host%d", h), Detector: "TST"})
@@ -377,6 +402,25 @@ func runScenario(s *scenario, verbose bool) (*observation, error) {
 	}
 	if err = w.SetWorkflow("c03wf", workflowYAML(s.tasks)); err != nil {
 		return nil, &sim.InfraError{What: "workflow", Err: err}
+	}
+	for gi, g := range s.groups {
+		for i := range g.tasks {
+			if err = w.SetTaskClass(groupClass(gi, i), taskClassYAML(groupClass(gi, i))); err != nil {
+				return nil, &sim.InfraError{What: "task class", Err: err}
+			}
+		}
+		if err = w.SetWorkflow(groupWf(gi), groupWorkflowYAML(gi, g.tasks)); err != nil {
+			return nil, &sim.InfraError{What: "workflow", Err: err}
+		}
+	}
+	// bystander groups that precede the environment in the roster
+	grt := make([]*groupRT, len(s.groups))
+	for gi, g := range s.groups {
+		if g.pos == "before" {
+			if grt[gi], err = createGroup(w, gi, g); err != nil {
+				return nil, err
+			}
+		}
 	}
 	c, cancel := gctx()
 	r, err := w.Client().NewEnvironment(c, &pb.NewEnvironmentRequest{WorkflowTemplate: "c03wf", Vars: map[string]string{}})
@@ -407,6 +451,26 @@ func runScenario(s *scenario, verbose bool) (*observation, error) {
 	for i, t := range recs {
 		if t.TaskID == "" {
 			return nil, &sim.InfraError{What: fmt.Sprintf("task %d not launched", i)}
+		}
+	}
+	// bystander groups that follow the environment in the roster
+	for gi, g := range s.groups {
+		if g.pos == "after" {
+			if grt[gi], err = createGroup(w, gi, g); err != nil {
+				return nil, err
+			}
+		}
+	}
+	for gi, g := range s.groups {
+		if g.own == "loose" {
+			if err = releaseGroup(w, grt[gi]); err != nil {
+				return nil, err
+			}
+		}
+	}
+	if len(s.groups) > 0 {
+		if err = rosterOrderOK(w, s, recs, grt); err != nil {
+			return nil, err
 		}
 	}
 	o := &observation{trans: "-", tErrorMs: -1}
@@ -546,6 +610,13 @@ func runScenario(s *scenario, verbose bool) (*observation, error) {
 				dead = append(dead, t)
 			}
 		}
+		for _, g := range grt {
+			for _, t := range g.recs {
+				if s.kind == "RAGENT" && t.AgentID == vic.AgentID {
+					dead = append(dead, t)
+				}
+			}
+		}
 		if err = dieWhileCutOff(w, dead, mesosOf[s.kind], s.instant == "dropabrupt"); err != nil {
 			return nil, err
 		}
@@ -581,6 +652,25 @@ func runScenario(s *scenario, verbose bool) (*observation, error) {
 		}
 	default:
 		o.victims = []int{s.victim}
+	}
+	// every task that died, bystanders included (the roster is one table: the walk over it does not stop at the
+	// environment's border). The model assumes one executor per agent (the core re-uses the executor an offer lists).
+	deadAll := map[string]bool{}
+	for _, i := range o.victims {
+		deadAll[recs[i].TaskID] = true
+	}
+	for _, g := range grt {
+		for _, t := range g.recs {
+			if (s.kind == "EXEC" || s.kind == "EXEC0") && t.AgentID == vic.AgentID && t.ExecutorID != vic.ExecutorID {
+				return nil, &sim.InfraError{What: "two executors on one agent: the model's assumption (the core re-uses the agent's executor) does not hold in this world"}
+			}
+			switch s.kind {
+			case "EXEC", "EXEC0", "AGENT", "AGENT0", "RAGENT":
+				if t.AgentID == vic.AgentID {
+					deadAll[t.TaskID] = true
+				}
+			}
+		}
 	}
 
 	if racing {
@@ -701,9 +791,18 @@ func runScenario(s *scenario, verbose bool) (*observation, error) {
 		var p struct {
 			Transition       string `json:"transition"`
 			TransitionStatus any    `json:"transitionStatus"`
+			EnvironmentId    string `json:"environmentId"`
 		}
 		if json.Unmarshal(e.Payload, &p) == nil {
+			if len(s.groups) > 0 && p.EnvironmentId != "" && p.EnvironmentId != id {
+				continue // a second environment's run events are not this environment's
+			}
 			o.run = append(o.run, [2]string{p.Transition, fmt.Sprint(p.TransitionStatus)})
+		}
+	}
+	if len(s.groups) > 0 {
+		if o.by, err = observeGroups(w, s, grt, deadAll, tSettle, evMark); err != nil {
+			return nil, err
 		}
 	}
 	// STOP commands / KILLs after the injection
